@@ -223,7 +223,7 @@ def c04_static(tier, rng):
 
 
 # ---- output-level invariants of novel models on the bundled data (bounded: two pipeline runs) -------------------------------------------
-def _run_pipeline(extra, with_annotation=True):
+def _run_pipeline(extra, with_annotation=True, prepare=None):
     import os, shutil, subprocess, sys, tempfile
     base = os.path.join(os.path.dirname(os.path.dirname(os.path.abspath(__file__))), ".run")
     os.makedirs(base, exist_ok=True)
@@ -233,9 +233,13 @@ def _run_pipeline(extra, with_annotation=True):
         shutil.copy(os.path.join(data, f), d)
     env = dict(os.environ, HOME=os.path.join(d, "home"))
     os.makedirs(env["HOME"], exist_ok=True)
-    cmd = [sys.executable, os.path.join(front.REPO, "isoquant.py"), "-d", "nanopore", "--bam", "chr9.4M.ont.sim.polya.bam",
-           "-r", "chr9.4M.fa.gz", "-o", "out", "-t", "1", "-p", "S"] + (["--genedb", "chr9.4M.gtf.gz", "--complete_genedb"] if with_annotation else []) + extra
+    bam, gtf = "chr9.4M.ont.sim.polya.bam", "chr9.4M.gtf.gz"
+    if prepare:
+        bam, gtf = prepare(d)
+    cmd = [sys.executable, os.path.join(front.REPO, "isoquant.py"), "-d", "nanopore", "--bam", bam,
+           "-r", "chr9.4M.fa.gz", "-o", "out", "-t", "1", "-p", "S"] + (["--genedb", gtf, "--complete_genedb"] if with_annotation else []) + extra
     p = subprocess.run(cmd, cwd=d, env=env, capture_output=True, text=True, timeout=900)
+    p.gtf = gtf
     return d, p
 
 
@@ -258,16 +262,16 @@ def _parse_gtf(path):
     return tr
 
 
-def _novel_output_problems(with_annotation):
+def _novel_output_problems(with_annotation, prepare=None, expect=None):
     import gzip, os, shutil
-    d, p = _run_pipeline([], with_annotation)
+    d, p = _run_pipeline([], with_annotation, prepare)
     problems = []
     try:
         if p.returncode != 0:
             return ["isoquant exited %d: %s" % (p.returncode, p.stderr[-300:])]
         out = os.path.join(d, "out", "S")
         models = _parse_gtf(os.path.join(out, "S.transcript_models.gtf"))
-        ref = _parse_gtf(os.path.join(d, "chr9.4M.gtf.gz")) if with_annotation else {}
+        ref = _parse_gtf(os.path.join(d, p.gtf)) if with_annotation else {}
         ref_introns = {i for t in ref.values() for i in t["introns"]}
         ref_chains = {(t["strand"], t["introns"]) for t in ref.values() if t["introns"]}
         read_introns = set()
@@ -321,6 +325,8 @@ def _novel_output_problems(with_annotation):
                         problems.append("%s: intron %s is in no corrected read alignment" % (tid, i))
             if support.get(tid, 0) < 1:
                 problems.append("%s has no supporting read in transcript_model_reads" % tid)
+        if expect:
+            problems += expect(models)
     finally:
         shutil.rmtree(d, ignore_errors=True)
     return problems
@@ -346,3 +352,87 @@ def c04_outputs(tier, rng):
                          "observed": p[:5], "required": "novel models evidence-backed, labelled, non-redundant",
                          "replay_call": "contracts.c_novel:replay_outputs"})
     return {"cases": cases, "bound": "bundled chr9 data, 2 runs", "violations": viol, "samples": [{"with_annotation": True}]}
+
+
+# ---- synthetic loci: situations the bundled data does not contain -------------------------------------------------------------------------
+def _synthetic_inputs(d):
+    """a standalone annotation and reads placed in a gene-free stretch of the bundled chr9 reference:
+    locus 1: reads follow T1 except that the second intron ends 3 bp before the annotated acceptor (near-annotated, NOT annotated);
+    locus 2: reads combine annotated introns of two isoforms into a chain no isoform has (novel in catalog);
+    locus 3: reads carry an intron unrelated to any annotated one"""
+    import gzip, os, random
+    import pysam
+    seq = "".join(l.strip() for l in gzip.open(os.path.join(d, "chr9.4M.fa.gz"), "rt") if not l.startswith(">"))
+    inp = pysam.AlignmentFile(os.path.join(d, "chr9.4M.ont.sim.polya.bam"))
+    tid = inp.get_tid("chr9")
+    base = 3041000     # inside the long gene-free stretch after the first gene cluster of the bundled annotation
+    loci = []
+    gtf = []
+    def gene(gid, strand, transcripts):
+        lo = min(e[0] for _, ex in transcripts for e in ex); hi = max(e[1] for _, ex in transcripts for e in ex)
+        gtf.append("chr9\tsyn\tgene\t%d\t%d\t.\t%s\t.\tgene_id \"%s\";" % (lo, hi, strand, gid))
+        for t, ex in transcripts:
+            gtf.append("chr9\tsyn\ttranscript\t%d\t%d\t.\t%s\t.\tgene_id \"%s\"; transcript_id \"%s\";" % (ex[0][0], ex[-1][1], strand, gid, t))
+            for a, b in ex:
+                gtf.append("chr9\tsyn\texon\t%d\t%d\t.\t%s\t.\tgene_id \"%s\"; transcript_id \"%s\";" % (a, b, strand, gid, t))
+    o = base
+    A, B, C, D, E = (o + 1000, o + 1100), (o + 2000, o + 2100), (o + 3000, o + 3100), (o + 4000, o + 4100), (o + 5000, o + 5200)
+    gene("synG1", "+", [("synG1.t1", [A, B, C, E]), ("synG1.t2", [A, C, D, E])])
+    # a chain no isoform has (A-B-C-D-E) whose intron C->D ends 3 bp before the annotated acceptor: near-annotated, NOT annotated
+    reads1 = [A, B, C, (D[0] - 3, D[1]), E]
+    o = base + 10000
+    A2, B2, C2, D2, E2 = (o + 1000, o + 1100), (o + 2000, o + 2100), (o + 3000, o + 3100), (o + 4000, o + 4100), (o + 5000, o + 5200)
+    gene("synG2", "+", [("synG2.t1", [A2, B2, C2, E2]), ("synG2.t2", [A2, C2, D2, E2])])
+    reads2 = [A2, B2, C2, D2, E2]                           # introns all annotated, chain in no isoform
+    o = base + 20000
+    A3, B3, C3 = (o + 1000, o + 1100), (o + 2000, o + 2100), (o + 3000, o + 3200)
+    gene("synG3", "+", [("synG3.t1", [A3, B3, C3])])
+    reads3 = [A3, (o + 2500, o + 2600), C3]                 # both introns unannotated
+    rng = random.Random(5)
+    recs = []
+    for li, ex in enumerate((reads1, reads2, reads3)):
+        for k in range(10):
+            e = list(ex)
+            e[0] = (e[0][0] + rng.randint(0, 5), e[0][1]); e[-1] = (e[-1][0], e[-1][1] - rng.randint(0, 5))
+            a = pysam.AlignedSegment(inp.header)
+            a.query_name, a.flag, a.reference_id, a.reference_start, a.mapping_quality = "syn%d_%d" % (li, k), 0, tid, e[0][0] - 1, 60
+            cig = []
+            s_ = ""
+            for i, (x, y) in enumerate(e):
+                if i:
+                    cig.append((3, x - e[i - 1][1] - 1))
+                cig.append((0, y - x + 1)); s_ += seq[x - 1:y]
+            a.cigartuples, a.query_sequence = cig, s_
+            a.query_qualities = pysam.qualitystring_to_array("I" * len(s_))
+            recs.append(a)
+    with pysam.AlignmentFile(os.path.join(d, "syn.bam"), "wb", template=inp) as out:
+        for a in sorted(recs, key=lambda x: x.reference_start):
+            out.write(a)
+    pysam.index(os.path.join(d, "syn.bam"))
+    open(os.path.join(d, "syn.gtf"), "w").write("\n".join(gtf) + "\n")
+    return "syn.bam", "syn.gtf"
+
+
+def _synthetic_expect(models):
+    problems = []
+    novel = {t: m for t, m in models.items() if t.startswith("transcript")}
+    if not novel:
+        problems.append("no novel model was reported for the synthetic loci (the scenario no longer exercises the labelling)")
+    return problems
+
+
+def replay_synthetic(d):
+    p = _novel_output_problems(True, _synthetic_inputs, _synthetic_expect)
+    return (not p), "synthetic loci: %s" % (p[:5] or "labels, strands, chains consistent")
+
+
+@bounded("C04.synthetic_loci", ["C04"], note="one pipeline run on three synthetic loci written into a gene-free stretch of the bundled reference "
+         "(own GTF, pysam-written reads): an intron 3 bp off an annotated acceptor, a novel combination of annotated introns, an unrelated "
+         "novel intron; the same output invariants as C04.pipeline_outputs (suffix .nic iff all introns annotated, definite strand, ...)")
+def c04_synthetic(tier, rng):
+    p = _novel_output_problems(True, _synthetic_inputs, _synthetic_expect)
+    viol = []
+    if p:
+        viol.append({"obligation": "C04.synthetic_loci", "inputs": {"scenario": "synthetic"}, "observed": p[:5],
+                     "required": "novel models labelled by whether ALL their introns are annotated", "replay_call": "contracts.c_novel:replay_synthetic"})
+    return {"cases": 3, "bound": "3 synthetic loci, 10 reads each", "violations": viol, "samples": [{"locus": "near-annotated acceptor (3 bp)"}]}
